@@ -19,6 +19,14 @@ PRE_U = [
     '    def __init__(self, a, b):',
     "        super().__init__('%s-%s' % (a, b))",
     '        self.a = a',
+    'class VE0(ValueError):',
+    '    pass',
+    'class VE2(ValueError):',
+    '    def __init__(self, a, b):',
+    "        super().__init__('%s-%s' % (a, b))",
+    'class RE1(RuntimeError):',
+    '    def __init__(self, a):',
+    "        super().__init__('<%s>' % a)",
     'class CM:',
     '    def __init__(self, t):',
     '        self.t = t',
@@ -40,6 +48,10 @@ FAIL_STMTS = [
     'v = p.ko_L%d.attr',
     'v = int(p.ks_L%d)',
 ]
+
+
+RAISES = {'CE': 'raise CE(1, 2)', 'VE0': "raise VE0('boom')", 'VE2': 'raise VE2(1, 2)', 'RE1': "raise RE1('x')"}
+EXC_NAMES = ['UE', 'CE', 'VE0', 'VE2', 'RE1']
 
 
 class P(object):
@@ -143,8 +155,8 @@ def render(chain, nest, tail, modid=0):
                 f.emit(ind, s, i, 'fail%d' % (q + 1))
             if tail == 'UE':
                 f.emit(ind, "raise UE('boom')", i, 'fail7')
-            elif tail == 'CE':
-                f.emit(ind, 'raise CE(1, 2)', i, 'fail7')
+            elif tail in RAISES:
+                f.emit(ind, RAISES[tail], i, 'fail7')
             else:
                 f.emit(ind, 'v = v + p.L%d', i, 'filler')
         for cl in reversed(closers):
